@@ -1134,6 +1134,9 @@ class WcParse(Generic[AnyStr]):
             elif c in SET_OPERATORS:
                 # Escape &, |, and ~ to avoid &&, ||, and ~~
                 value = '\\' + c
+            elif c == '#':
+                # Escape # so that a literal `(?#)` is never taken for the internal comment marker
+                value = '\\' + c
             else:
                 # Anything else
                 value = c
